@@ -1,3 +1,4 @@
+import ast
 """C09 -- cumulative intensity measures: length, monotonicity, scaling laws, quadrature kind (typing obligations)."""
 from ..tyob import *  # noqa
 from ..tyob import analyse, expect, unmodelled_in, const_values, check_forwarder, only_managed_reads
@@ -59,16 +60,28 @@ def run(chk):
     expect(chk, "R-CAVDP", c, r.ret, length="n", mono=0, sign="nonneg", kind=K_ARRAY,
            tags_has=["quad:trapezoid", "abs", "interp:linear", "attr:_values", "attr:_dt"], loc=r.fi.loc())
     cs = const_values(r.fi, chk.P)
+    from ..normalise import pinned as _pinned
+    seen_, todo_ = set(), [r.fi]
+    while todo_:                       # helpers introduced later that the function names (called, mapped, iterated), transitively
+        f_ = todo_.pop()
+        for n_ in ast.walk(f_.node):
+            if isinstance(n_, ast.Name) and isinstance(n_.ctx, ast.Load):
+                g_ = f_.module.functions.get(n_.id)
+                if g_ is not None and g_.qualname not in _pinned() and g_.qualname not in seen_:
+                    seen_.add(g_.qualname)
+                    todo_.append(g_)
+                    cs = cs + const_values(g_, chk.P)
+    partly = any(e.kind == "unmodelled" for e in r.I.events)       # something on the path is not followed: an absent gate proves nothing
     chk.ob("R-CAVDP", c + "[gate]", "gate literal 0.025 (g) and 9.81 in the function", 0.025 in cs and 9.81 in cs,
            derived="literals %s" % sorted(set(cs)), loc=r.fi.loc())
     # the gate must compare a max-abs of the window (even, degree 1) -- from the compare events
     gate = [e for e in r.events("compare", r.fi.qualname) if "red:max" in (e.left.tags | e.right.tags)]
     okg = bool(gate) and all("abs" in (e.left.tags | e.right.tags) for e in gate)
     chk.ob("R-CAVDP", c + "[gate-operand]", "the gate tests the window's peak |a|", okg,
-           derived="%d gate comparison(s)" % len(gate), loc=gate[0].loc if gate else r.fi.loc())
+           derived="%d gate comparison(s)" % len(gate), loc=gate[0].loc if gate else r.fi.loc(), inconclusive=(not gate and partly))
     chk.ob("R-CAVDP", c + "[gate-window]", "the gated peak is taken over the whole window, not over a masked/selected subset of it",
            bool(gate) and not any("where-index" in (e.left.tags | e.right.tags) for e in gate),
            derived="gate operand passes through an index/mask selection" if any("where-index" in (e.left.tags | e.right.tags) for e in gate) else "whole window",
-           loc=gate[0].loc if gate else r.fi.loc())
+           loc=gate[0].loc if gate else r.fi.loc(), inconclusive=(not gate and partly))
     chk.floor("R-IM-TYPE", 70)
     chk.floor("R-CAVDP", 8)
